@@ -89,6 +89,27 @@ func (r *Recorder) Emit(ev string, f F) {
 	r.Count++
 }
 
+// EmitRaw records an event whose fields are already in trace form (spliced in from another process's trace).
+func (r *Recorder) EmitRaw(ev string, f F) {
+	r.mu.Lock()
+	defer r.mu.Unlock()
+	if r.paused > 0 {
+		return
+	}
+	r.seq++
+	out := F{"ev": ev, "seq": r.seq}
+	for k, v := range f {
+		out[k] = v
+	}
+	b, err := json.Marshal(out)
+	if err != nil {
+		return
+	}
+	r.w.Write(b)
+	r.w.WriteByte('\n')
+	r.Count++
+}
+
 // W encodes a 64-bit word for TLC (32-bit integers): decimal string for equality,
 // four 16-bit limbs (most significant first) for order and mask arithmetic, and
 // the value itself when it is small.
